@@ -847,6 +847,8 @@ class SRPKeyExchange(KeyExchange):
 
     def makeServerKeyExchange(self, sigHash=None):
         """Create SRP version of Server Key Exchange"""
+        if self.clientHello.srp_username is None:
+            raise TLSUnknownPSKIdentity("SRP extension missing")
         srpUsername = bytes(self.clientHello.srp_username)
         #Get parameters from username
         try:
